@@ -1408,7 +1408,8 @@ def normalize_module(tree, no_inline, all_classes=None, recorded=None):
         for name, lst in defs.items():
             if name.startswith('__') and name.endswith('__'):
                 continue
-            if not all(c.name in recorded and name not in recorded[c.name] and not b.decorator_list for c, b in lst):
+            # (a class the recorded tree does not have is new as a whole: a small record / helper class)
+            if not all((c.name not in recorded or name not in recorded[c.name]) and not b.decorator_list for c, b in lst):
                 continue
             # unique, or sibling implementations with the same body (then either stands for the call)
             bodies = {ast.dump(ast.Module(body=[x for x in b.body if not _is_docstring(x)], type_ignores=[])) for c, b in lst}
@@ -1423,7 +1424,7 @@ def normalize_module(tree, no_inline, all_classes=None, recorded=None):
         for name, lst in defs.items():
             if name.startswith('__') or name in stored or name in ('value', 'name'):
                 continue
-            if not all(c.name in recorded and name not in recorded[c.name] and len(b.decorator_list) == 1 and isinstance(
+            if not all((c.name not in recorded or name not in recorded[c.name]) and len(b.decorator_list) == 1 and isinstance(
                     b.decorator_list[0], ast.Name) and b.decorator_list[0].id == 'property' for c, b in lst):
                 continue
             bodies = {ast.dump(ast.Module(body=[x for x in b.body if not _is_docstring(x)], type_ignores=[])) for c, b in lst}
